@@ -214,9 +214,56 @@ type RtspCase struct {
 	// FeedAfter: frames the healthy feed publishes after the hostile bytes were delivered (subscriber stages)
 	FeedAfter int   `json:"feed_after,omitempty"`
 	Slices    []int `json:"slices,omitempty"`
+	// Flood (publisher side, after Steps): a sequence-number gap on one track, Cached packets held back behind it,
+	// then the missing packet, then further packets: the reorder list (capacity 1024) and the A/V interleave queue
+	// (capacity 128) at and beyond their limits
+	Flood *RtspFlood `json:"flood,omitempty"`
 	// Repeat > 0 (regression corpus only): the exchange is repeated on that many further fresh servers, to give a
 	// scheduling-dependent failure (lal hands the publisher's SDP to the group in a goroutine of its own) a chance
 	Repeat int `json:"repeat,omitempty"`
+}
+
+// RtspFlood: on track Track, packet F, then Cached packets F+2.. (payload Kind), then F+1 (payload Gap; "" = never
+// sent), then one packet per entry of Then at F+Then[i].
+type RtspFlood struct {
+	Track  int    `json:"track"`
+	Cached int    `json:"cached"`
+	Kind   string `json:"kind"` // hex payload of the cached packets
+	Gap    string `json:"gap"`  // hex payload of the gap packet ("none" = never sent)
+	Then   []int  `json:"then,omitempty"`
+	SameTs bool   `json:"same_ts,omitempty"`
+}
+
+func (c *RtspCase) floodBytes() []byte {
+	f := c.Flood
+	trs := c.tracks()
+	if f == nil || len(trs) == 0 {
+		return nil
+	}
+	tr := trs[f.Track%len(trs)]
+	var out []byte
+	pk := func(seq uint16, ts uint32, hexPayload string) {
+		r := RtpSpec{Ver: 2, PT: tr.pt, Seq: seq, TS: ts, SSRC: 0xf100d, CutTo: -1, Payload: Blob{Hex: hexPayload}}
+		out = append(out, Frame{Chan: tr.ch, Rtp: &r, DeclLen: -1}.Bytes()...)
+	}
+	first := uint16(20000)
+	ts := func(i int) uint32 {
+		if f.SameTs {
+			return 5000000
+		}
+		return 5000000 + uint32(i)*3000
+	}
+	pk(first, ts(0), f.Kind)
+	for i := 0; i < f.Cached; i++ {
+		pk(first+2+uint16(i), ts(i+2), f.Kind)
+	}
+	if f.Gap != "none" {
+		pk(first+1, ts(1), f.Gap)
+	}
+	for _, d := range f.Then {
+		pk(first+uint16(d), ts(d), f.Kind)
+	}
+	return out
 }
 
 const hostileUri = "rtsp://127.0.0.1:5544/live/c13hostile"
@@ -363,7 +410,11 @@ func (c *RtspCase) tail(cseq *int) []byte {
 			out = append(out, st.Raw.Bytes()...)
 		}
 	}
-	return c.Mut.apply(out)
+	out = c.Mut.apply(out)
+	if !c.subscriberSide() {
+		out = append(out, c.floodBytes()...)
+	}
+	return out
 }
 
 // ---- generators ---------------------------------------------------------------------
@@ -650,6 +701,27 @@ func genRtspCase(t *rapid.T) RtspCase {
 		at := rapid.IntRange(0, len(c.Steps)).Draw(t, "burstAt")
 		c.Steps = append(c.Steps[:at:at], append(burst, c.Steps[at:]...)...)
 	}
+	if !c.subscriberSide() && c.Stage != "none" && c.Stage != "options" && rapid.IntRange(0, 7).Draw(t, "flood") == 0 {
+		f := &RtspFlood{Track: rapid.IntRange(0, 1).Draw(t, "floodTrack")}
+		f.Cached = rapid.SampledFrom([]int{1, 127, 128, 129, 300, 1022, 1023, 1024, 1025, 1100}).Draw(t, "floodCached")
+		if trs := c.tracks(); len(trs) > 0 {
+			tab := payloadTable(trs[f.Track%len(trs)].codec)
+			f.Kind = rapid.SampledFrom(tab).Draw(t, "floodKind").hex
+			f.Gap = rapid.SampledFrom(tab).Draw(t, "floodGap").hex
+		}
+		if f.Kind == "" {
+			f.Kind = "d5d5"
+		}
+		if rapid.IntRange(0, 4).Draw(t, "floodNoGap") == 0 {
+			f.Gap = "none"
+		}
+		n := rapid.IntRange(0, 4).Draw(t, "floodThen")
+		for i := 0; i < n; i++ {
+			f.Then = append(f.Then, rapid.SampledFrom([]int{0, 1, 2, 1100, 1101, 1102, 5000, 5002, 32768, 40000, 65535}).Draw(t, "floodSeq"))
+		}
+		f.SameTs = rapid.Bool().Draw(t, "floodSameTs")
+		c.Flood = f
+	}
 	c.Mut = genMut(t)
 	if c.subscriberSide() {
 		c.FeedAfter = rapid.IntRange(0, 3).Draw(t, "feedAfter")
@@ -899,6 +971,20 @@ func classifyRtsp(c RtspCase) (bool, []string) {
 	}
 	sl, hostile := c.stepLabels()
 	labels = append(labels, sl...)
+	if f := c.Flood; f != nil {
+		hostile = true
+		switch {
+		case f.Cached >= 1023:
+			labels = append(labels, "flood:gap+cached>=reorder-capacity-1")
+		case f.Cached >= 127:
+			labels = append(labels, "flood:gap+cached>=interleave-capacity-1")
+		default:
+			labels = append(labels, "flood:gap+cached-few")
+		}
+		if f.Gap == "none" {
+			labels = append(labels, "flood:gap-never-filled")
+		}
+	}
 	labels = append(labels, c.Mut.labels()...)
 	if len(c.Slices) > 0 {
 		labels = append(labels, "tcp-sliced")
